@@ -520,6 +520,9 @@ class UnionMetaType(StructureMetaType):
             result = {}
             sizes = {}
             buf = stream.read(cls.size)
+            if len(buf) < cls.size and stream.read(1):
+                # Only at the end of the input the tail padding may be missing: this was a short read with more to come
+                raise EOFError(f"Read {len(buf)} bytes, but expected {cls.size}")
 
         # Create the object and set the values
         # Using type.__call__ directly calls the __init__ method of the class
